@@ -117,7 +117,8 @@ def gen_cases(ctx):
     hdr = ("From Coq Require Import QArith.\nFrom Precond Require Import Base.PyLib C07.Layout "
            "C07.Model C07.ModelTF C07.Check.\nOpen Scope Z_scope.\n")
     bugs = c07.coq_bugs(set(c07.BUG_FLAGS))
-    terms = ["code (obind (ds_init %s %s %s) (fun l => ds_update %s %s %s l))" % (
+    terms = ["code (obind (ds_init %s %s %s) (fun l => obind (ds_update %s %s %s l) (fun l2 => "
+             "if layout_eqb l l2 then Ok l else Internal [0])))" % (
         bugs, c07.coq_dscfg(cfg), c07.coq_layout(c07.tree_sig(tr)),
         bugs, c07.coq_dscfg(cfg), c07.coq_layout(c07.tree_sig(tr))) for cfg, tr in cand]
     vals = ctx.coq_eval("select", hdr, terms, per_shard=30)
@@ -128,8 +129,8 @@ def gen_cases(ctx):
       if cfg.get("frequent_directions") and cfg.get("average_grad"):
         continue          # D8 territory (layout change, reported by the dedicated case)
       nrand += 1
-      cases.append(dict(name="ds-random-%d" % len(cases), opt="ds", cfg=cfg, tree=tr, T=6, exec="jit",
-                        crash_points=[0, 1, 3, 6]))
+      cases.append(dict(name="ds-random-%d" % len(cases), opt="ds", cfg=cfg, tree=tr, tree_b=tr, T=6,
+                        exec="jit", crash_points=[0, 1, 3, 6]))
   for i, c in enumerate(cases):
     c["id"] = i
     c["seed"] = rng.next() % 100000
